@@ -38,7 +38,7 @@ SPEC = {
     "exhaustive_note": "enumerated completely: all 64 option masks per tree; all 256 byte values as string and as key; "
                        "2^k-1, 2^k, 2^k+1 and negations for k<64; every decimal exponent -300..300 for 8 mantissas",
     "assumptions": ASSUME_COMMON + [
-        "floats are compared at six significant digits (%.5e text of both sides), the precision serialize() keeps; the sign of zero is not compared",
+        "floats are compared at six significant digits (%.5e text of both sides), the precision serialize() keeps; a generated -0.0 / +0.0 must come back with the same sign bit",
         "CPython json.loads is the independent reader; text is mapped latin-1 <-> bytes because phosg writes one \\u00XX escape per byte",
         "NaN, infinities and denormals are outside the statement and are never generated; dictionary key order is not compared",
         "signed-overflow reports inside parse/serialize of INT64_MIN are recorded (ub_observations), the value oracle decides",
